@@ -21,7 +21,8 @@ RULE = ('fault plan = for every worker but one (the usable one), per remote meth
         'sizes); oracle: every task result exactly once / every output batch at least once and exactly one final aggregate equal '
         'to the fault-free in-process result; application errors surface as errors; exhausted budget => TimeoutError; afterwards '
         'no worker is acquired; a 120 s watchdog catches hangs; non-trivial = a fault hit an issued call and the run still had to '
-        'complete; distinct = distinct canonical case JSON')
+        'complete; distinct = distinct canonical case JSON'
+        '; also: fault action presumed_dead (reply parked, worker unregistered, reply delivered after a generated delay or at the moment the caller gives the worker up), every worker timing out 29..50 times on initialisation')
 ASSUMPTIONS = [
     'in-process fake transport: an unreachable or dead server fails a call immediately with deadline exceeded (code 4)',
     'one worker carries no faults (the property\'s "one worker stays usable"); plans that must complete use the default '
